@@ -188,6 +188,20 @@ def scan_source(path: str, text: str) -> List[Dict[str, Any]]:
             findings.append(dict(entry, category="entropy", allowed=False, why="entropy source outside `random`"))
         elif name == "id" and isinstance(node.func, ast.Name):
             findings.append(dict(entry, category="identity", allowed=False, why="object identity (address) used as a value"))
+        elif name == "hash" and isinstance(node.func, ast.Name):
+            # a class object hashes by its address (not covered by PYTHONHASHSEED): hash((type(self), ...)) differs
+            # from process to process; type(self).__name__ (a string) does not
+            def is_class_obj(e) -> bool:
+                if isinstance(e, ast.Call) and isinstance(e.func, ast.Name) and e.func.id == "type" and len(e.args) == 1:
+                    return True
+                return isinstance(e, ast.Attribute) and e.attr == "__class__"
+            hits = []
+            for arg in node.args:
+                cand = [arg] + (list(arg.elts) if isinstance(arg, (ast.Tuple, ast.List)) else [])
+                hits += [ast.unparse(c) for c in cand if is_class_obj(c)]
+            if hits:
+                findings.append(dict(entry, category="identity", allowed=False,
+                                     why=f"hash of a class object ({', '.join(hits)}): address-dependent, differs between processes"))
         elif name.split(".")[-1] in ("set_param", "set_option", "set"):
             consts = [a.value for a in node.args if isinstance(a, ast.Constant) and isinstance(a.value, str)]
             consts += [k.arg for k in node.keywords if k.arg]
